@@ -1,6 +1,6 @@
 (* Properties_C04.v — property C04: solution ordering (best first) and cost algebra.  Statements only. *)
 From Coq Require Import List ZArith Bool Sorted Permutation Reals.
-From OmplV Require Import SolModel SolProofs SpacesModel CostModel CostProofs.
+From OmplV Require Import SolModel SolProofs SpacesModel CostModel CostProofs RrtStarModel RrtStarProofs RrtStarCost.
 Import ListNotations.
 
 (* for solutions that share one objective (or none), operator< IS the intended lexicographic order:
@@ -88,6 +88,29 @@ Theorem C04_multi_length_plus_integral :
   forall (S : Type) (d : S -> S -> R) w1 w2 (p : list (pt RA S)),
     cost_multi RA S ((w1, length_motion RA S d) :: (w2, integral_motion RA S d) :: nil) p = (w1 * cost_length RA S d p + w2 * cost_integral RA S d p)%R.
 Proof. exact cost_length_plus_integral. Qed.
+(* what geometric::RRTstar stores (RrtStarModel, the planner as a whole; its runs agree with the library bit for bit incl. every cost):
+   after any number of iterations, under the order hypotheses of C01_rrtstar_reports_only_real_paths, every motion's cost is its parent's
+   cost combined with its incCost (updateChildCosts restores this in the whole subtree after every rewiring), incCosts are motion costs,
+   and the parent structure is acyclic — so the cost stored with the reported motion is the combination of the incCosts along the
+   reported path: for this planner the stored cost is not merely 'never better than' but equal to the cost accumulated along its path *)
+Theorem C04_rrtstar_cost_is_parent_cost_plus_inccost :
+  forall (St C : Type) (clt : C -> C -> bool) (cadd : C -> C -> C) (c0 : C) (dflt : St),
+  (forall a b c : C, cle C clt a b -> cle C clt b c -> cle C clt a c) ->
+  forall nn : C -> Prop, (forall a i : C, nn i -> cle C clt a (cadd a i)) -> (forall a : C, clt a a = false) -> nn c0 ->
+  forall (dist mcost : St -> St -> C) (sym : bool) (csat : C -> bool) (steer : St -> St -> St) (maxd : C) (mv : St -> St -> bool) (sat : St -> bool)
+         (gdist : St -> C) (goal_state : St) (bias : C) (kof : nat -> nat),
+  (forall a b : St, nn (mcost a b)) ->
+  forall (starts : list St) (iters : nat) (tape : list C) (samples : list St), starts <> nil ->
+  let tree := fst (star_solve St C dist clt cadd c0 mcost sym csat steer maxd mv sat gdist goal_state dflt bias kof starts iters tape samples) in
+  forall j, match n_par St C (nd St C c0 dflt tree j) with
+            | Some p => n_cost St C (nd St C c0 dflt tree j) = cadd (n_cost St C (nd St C c0 dflt tree p)) (n_inc St C (nd St C c0 dflt tree j))
+            | None => True
+            end.
+Proof.
+  intros St C clt cadd c0 dflt H1 nn H2 H3 H4 dist mcost sym csat steer maxd mv sat gdist goal_state bias kof H5 starts iters tape samples Hs tree j.
+  destruct (star_solve_full St C clt cadd c0 dflt H1 nn H2 H3 H4 dist mcost sym csat steer maxd mv sat gdist goal_state bias kof H5 starts iters tape samples Hs) as (_ & (_ & _ & HK & _) & _).
+  exact (HK j).
+Qed.
 (* minimax objectives: the path cost is the worst state cost evaluated along any motion, both end states of every
    motion included (or the identity cost): the maximum for MinimaxObjective, the minimum for max-min clearance *)
 Theorem C04_minimax_cost_is_max :
@@ -116,6 +139,7 @@ Print Assumptions C04_work_cost_admissible_bound.
 Print Assumptions C04_work_motion_cost_is_directional.
 Print Assumptions C04_multi_cost_is_weighted_sum.
 Print Assumptions C04_multi_length_plus_integral.
+Print Assumptions C04_rrtstar_cost_is_parent_cost_plus_inccost.
 Print Assumptions C04_minimax_cost_is_max.
 Print Assumptions C04_clearance_cost_is_min.
 
